@@ -775,8 +775,10 @@ func (c *Client) Do(ctx context.Context, q Query) (err error) {
 				return nil
 			default:
 				if err := c.handlePacket(ctx, code, q); err != nil {
-					if IsException(err) {
-						// Prevent query cancellation on exception.
+					if code == proto.ServerCodeException && IsException(err) {
+						// Prevent query cancellation on exception. Only the
+						// Exception packet counts: an error of a user callback
+						// can wrap an Exception too, but the stream goes on.
 						gotException.Store(true)
 					}
 					return errors.Wrap(err, "handle packet")
@@ -810,11 +812,13 @@ func (c *Client) Do(ctx context.Context, q Query) (err error) {
 	})
 	if err := g.Wait(); err != nil {
 		if !c.IsClosed() {
-			if !IsException(err) {
-				// The receive loop ended with a server exception (so nobody
-				// cancelled the query) but the call fails for another reason,
-				// e.g. the sender hit a transport error first. The connection
-				// is in an unknown state: do not leave it open for reuse.
+			if !gotException.Load() || !IsException(err) {
+				// The call fails for another reason than a server exception
+				// that ended the stream: e.g. the sender hit a transport
+				// error first, or a callback returned an error (which may
+				// wrap an Exception of its own) in the middle of the stream.
+				// The connection is in an unknown state: do not leave it
+				// open for reuse.
 				_ = c.Close()
 			} else {
 				// The client stays usable after a server exception. Drop
